@@ -42,6 +42,17 @@ impl GenericSocketBackend {
         }
     }
 
+    /// `peer_disconnected` for a caller that held the peer's table entry across an await. Meanwhile
+    /// a task registering another peer may have queued for the same bucket; it is next in line
+    /// and may need this very thread to run, so the removal is awaited: a blocking wait could
+    /// never be granted on a single-threaded runtime.
+    pub(crate) async fn forget_peer(&self, peer_id: &PeerIdentity) {
+        self.peers.remove_async(peer_id).await;
+        if let Some(inner) = &self.fair_queue_inner {
+            inner.lock().remove(peer_id);
+        }
+    }
+
     pub(crate) async fn send_round_robin(&self, message: Message) -> ZmqResult<PeerIdentity> {
         // In normal scenario this will always be only 1 iteration
         // There can be special case when peer has disconnected and his id is still in
@@ -74,7 +85,7 @@ impl GenericSocketBackend {
                     Ok(next_peer_id)
                 }
                 Err(e) => {
-                    self.peer_disconnected(&next_peer_id);
+                    self.forget_peer(&next_peer_id).await;
                     Err(e.into())
                 }
             };
